@@ -2,7 +2,7 @@
     lifted to the running instances, and to indicators whose value theorem is a composition of averages. *)
 From Yata Require Import Base.Prelude Base.Num Base.NumR Core.Window Core.WindowSpec Core.Candle Core.Action Core.Strings
   Spec.Hist Spec.MethodDefs Spec.IndicatorDefs Methods.Basic Indicators.Common Indicators.Set1 Indicators.Set3
-  Proofs.MethodsCommon Proofs.Averages Proofs.MAProofs Proofs.Averages5 Proofs.IndicatorProofs3 Proofs.IndicatorProofs11.
+  Proofs.MethodsCommon Proofs.Averages Indicators.Set2 Proofs.MAProofs Proofs.Averages5 Proofs.IndicatorProofs3 Proofs.IndicatorProofs4 Proofs.IndicatorProofs5 Proofs.IndicatorProofs7 Proofs.IndicatorProofs11.
 From Coq Require Import Reals Lra Lia.
 Open Scope R_scope.
 
@@ -77,5 +77,56 @@ Proof.
   { intros j. unfold macd_line. rewrite !ma_def_constant by assumption. rsimp. lra. }
   rewrite (Hl (S k)), (series_repeat _ v 0 (S k) Hl).
   change (f0 (N := NumR)) with (0 : R). rewrite (ma_def_constant (mc_signal cfg) 0 (S k) L3). reflexivity.
+Qed.
+
+Lemma hget_repeat {A} (x : A) k i : hget x (repeat x k) i = x.
+Proof. revert i. induction k as [|k IH]; intros i; [reflexivity|]. destruct i as [|i]; [reflexivity|]. cbn [repeat]. apply (IH i). Qed.
+Lemma diffs_repeat (v : R) k : diffs v (repeat v k) = repeat 0 k.
+Proof.
+  induction k as [|k IH]; [reflexivity|]. cbn [repeat diffs]. rewrite IH. f_equal. rewrite hget_repeat. rsimp. lra.
+Qed.
+Lemma map_repeat {A B} (f : A -> B) x k : map f (repeat x k) = repeat (f x) k.
+Proof. induction k as [|k IH]; [reflexivity|]. cbn [repeat map]. rewrite IH. reflexivity. Qed.
+
+(** RelativeStrengthIndex on a constant candle: exactly the neutral value 1/2 for ever, for every averaging kind *)
+Theorem rsi_constant (cfg : rsi_cfg (N := NumR)) (c0 : C) k : rsi_validate cfg = true -> ma_len_ok (rc_ma cfg) ->
+  exists s0, rsi_init cfg c0 = Ok s0 /\ fst (snd (rsi_next (steps rsi_next s0 (repeat c0 k)) c0)) = [flit 1 2].
+Proof.
+  intros Hv Hl. destruct (rsi_values_correct cfg c0 (repeat c0 k) c0 Hv (ma_proved_all _) Hl) as (s0 & E & H).
+  exists s0. split; [exact E|]. rewrite H. unfold rsi_values. cbv zeta.
+  replace (rev (repeat c0 k ++ [c0])) with (repeat c0 (S k)) by (rewrite rev_unit, rev_repeat; reflexivity).
+  rewrite srcs_repeat, diffs_repeat, !map_repeat.
+  assert (E1 : fmax (0 : R) (f0 (N := NumR)) = 0) by (unfold f0; rsimp; apply Rmax_left; lra).
+  assert (E2 : fmin (0 : R) (f0 (N := NumR)) = 0) by (unfold f0; rsimp; apply Rmin_left; lra).
+  rewrite E1, E2. change (f0 (N := NumR)) with (0 : R). rewrite !(ma_def_constant (rc_ma cfg) 0 (S k) Hl).
+  unfold fne. rsimp. replace (0 + - 0) with 0 by ring. destruct (Reqb_spec 0 0) as [_|N0]; [reflexivity|exfalso; apply N0; reflexivity].
+Qed.
+
+(** DetrendedPriceOscillator on a constant candle: 0 for ever *)
+Theorem dpo_constant (ma : ma_cfg) src (c0 : C) k : (1 < ma_period ma < pmax)%Z -> ma_len_ok ma ->
+  exists s0, dpo_init ma src c0 = Ok s0 /\ fst (snd (dpo_next (steps dpo_next s0 (repeat c0 k)) c0)) = [0].
+Proof.
+  intros Hp Hl. destruct (dpo_values_correct ma src c0 (repeat c0 k) c0 Hp (ma_proved_all _) Hl) as (s0 & E & H).
+  exists s0. split; [exact E|]. rewrite H. unfold dpo_values. cbv zeta.
+  replace (rev (repeat c0 k ++ [c0])) with (repeat c0 (S k)) by (rewrite rev_unit, rev_repeat; reflexivity).
+  rewrite srcs_repeat, hget_repeat, ma_def_constant by exact Hl. f_equal. rsimp. lra.
+Qed.
+
+(** Trix on a constant candle: the Trix line and its signal line are 0 for ever *)
+Theorem trix_constant p1 (signal : ma_cfg) src (c0 : C) k :
+  (2 < p1 <= pmax - 1)%Z -> (1 < ma_period signal)%Z -> ma_len_ok signal -> (4 <= pmax)%Z ->
+  exists s0, trix_init p1 signal src c0 = Ok s0 /\ fst (snd (trix_next (steps trix_next s0 (repeat c0 k)) c0)) = [0; 0].
+Proof.
+  intros Hp Hsg Ls Hpm. destruct (trix_values_correct p1 signal src c0 (repeat c0 k) c0 Hp Hsg (ma_proved_all _) Ls Hpm) as (s0 & E & H).
+  exists s0. split; [exact E|]. rewrite H. unfold trix_values. cbv zeta.
+  replace (rev (repeat c0 k ++ [c0])) with (repeat c0 (S k)) by (rewrite rev_unit, rev_repeat; reflexivity).
+  rewrite srcs_repeat. set (v := c_source c0 src).
+  assert (Lk : ma_len_ok (MAcfg KTMA p1)) by (cbn [ma_len_ok]; lia).
+  assert (Ht : forall j, tma_def p1 v (repeat v j) = v).
+  { intros j. pose proof (ma_def_constant (MAcfg KTMA p1) v j Lk) as Hc. unfold ma_def in Hc. cbv zeta in Hc. exact Hc. }
+  rewrite (series_repeat (tma_def p1 v) v v (S k) Ht).
+  assert (Hc0 : forall j, fsub (hget v (repeat v j) 0%nat) (hget v (repeat v j) 1%nat) = 0) by (intros j; rewrite !hget_repeat; rsimp; lra).
+  rewrite (Hc0 (S k)), (series_repeat _ v 0 (S k) Hc0). change (f0 (N := NumR)) with (0 : R).
+  rewrite (ma_def_constant signal 0 (S k) Ls). reflexivity.
 Qed.
 End Const.
